@@ -32,7 +32,9 @@ fuzz_target!(|data: &[u8]| {
             flush.push(u.arbitrary().unwrap_or(false));
         }
         let drop_after = (u.arbitrary::<u8>().unwrap_or(0) as usize) % (n + 1);
-        check_write(&WriteCase { stdfs: false, append, existing, chunks, flush, drop_after, prelude: u.arbitrary::<u8>().unwrap_or(0) })
+        // bit 32 of the prelude asks check_write to drop the handle while its thread unwinds from a panic the check
+        // raises itself; libFuzzer's panic hook aborts the process on any panic, so that mode stays with the proptest part
+        check_write(&WriteCase { stdfs: false, append, existing, chunks, flush, drop_after, prelude: u.arbitrary::<u8>().unwrap_or(0) & !32 })
     } else {
         let dl = (u.arbitrary::<u16>().unwrap_or(0) % 300) as usize;
         let data = u.bytes(dl.min(u.len())).map(|x| x.to_vec()).unwrap_or_default();
